@@ -20,6 +20,9 @@ import (
 // Activations.tla, part 3) and q = floor(y * 2^28) (+-2^30 when y is not finite or |y| >= 4).  The rows are judged by
 // TLC (Trace_Activations.tla), not here.
 
+// auxiliary parameter vectors a node may carry (NNode.Params, derived from a trait): none of the registered closed forms reads them
+var auxProbes = [][]float64{{0.5, -3}, {0, 0}, {1, 2}, {0.1, 0, 0, 0, 0, 0, 0, 0}}
+
 func init() { commands["eval-grid"] = evalGrid }
 
 const qSentinel = 1 << 30
@@ -107,6 +110,19 @@ func evalGrid(args []string) int {
 			}
 			rep.Evaluations++
 			ys[f.name] = append(chunks(y), fixed28(y))
+			// the closed forms have no parameters: the auxiliary vector (a node's trait-derived Params) must not matter
+			for _, aux := range auxProbes {
+				var ya float64
+				p := vhu.Guard(func() { ya, _ = a.ActivateByType(x, aux, f.t) })
+				rep.Evaluations++
+				if p != "" || math.Float64bits(ya) != math.Float64bits(y) && !(math.IsNaN(ya) && math.IsNaN(y)) {
+					rep.Fail(map[string]interface{}{"case": map[string]string{"fn": f.name, "hex": g.Hex},
+						"what": fmt.Sprintf("%s(%s) = %s with auxiliary parameters %v, %s without: the definition has no parameters %s",
+							f.name, vhu.Fstr(x), vhu.Fstr(ya), aux, vhu.Fstr(y), p),
+						"signature": "activ grid " + f.name + " aux"})
+					break
+				}
+			}
 		}
 		rep.Cases++
 		if rep.Cases%1201 == 7 {
